@@ -243,7 +243,45 @@ impl Check for Registries {
     }
     fn strategy(&self, tier: Tier) -> BoxedStrategy<Case> {
         let max_ops = tier.pick(40usize, 120usize);
-        prop::collection::vec(op(), 5..max_ops).prop_map(|ops| Case { ops }).boxed()
+        let free = prop::collection::vec(op(), 5..max_ops).prop_map(|ops| Case { ops }).boxed();
+        // directed shape: a crowded registry — more entries of one kind than the listings' default page
+        // (10): 11-13 pairs, or a vault / an incentive for every asset of the universe (11), in a
+        // generated order, then listings without a limit, walks with removals, and a random tail
+        let crowded = (0u8..3, Just((0..N_ASSETS as u8).collect::<Vec<u8>>()).prop_shuffle(), 11usize..14, prop::collection::vec(op(), 0..10))
+            .prop_map(|(kind, order, n_pairs, tail)| {
+                let mut ops = vec![];
+                match kind {
+                    0 => {
+                        let mut made = 0;
+                        'outer: for i in 0..order.len() {
+                            for j in (i + 1)..order.len() {
+                                ops.push(Op::CreatePair { a: order[i], b: order[j], stable: false });
+                                made += 1;
+                                if made >= n_pairs {
+                                    break 'outer;
+                                }
+                            }
+                        }
+                    }
+                    1 => ops.extend(order.iter().map(|a| Op::CreateVault { a: *a })),
+                    _ => ops.extend(order.iter().map(|a| Op::CreateIncentive { a: *a })),
+                }
+                let what = match kind {
+                    0 => 0u8,
+                    1 => 2,
+                    _ => 3,
+                };
+                ops.push(Op::List { what, limit: 0 });
+                ops.push(Op::List { what, limit: 30 });
+                if kind < 2 {
+                    ops.push(Op::ListWhileRemoving { what: if kind == 0 { 0 } else { 2 }, limit: 3, remove_at: 1 });
+                    ops.push(Op::List { what, limit: 0 });
+                }
+                ops.extend(tail);
+                Case { ops }
+            })
+            .boxed();
+        prop_oneof![12 => free, 1 => crowded].boxed()
     }
     fn cases(&self, tier: Tier) -> u32 {
         tier.pick(25_000, 1_200_000)
@@ -744,6 +782,9 @@ impl Check for Registries {
                             ensure!(got == want, "step {step}: paging pairs with limit {limit} returned {seen:?}, registered {want:?}");
                             if pages > 1 {
                                 multi_page += 1;
+                                if limit_opt.is_none() {
+                                    rec.class("listing_without_a_limit_spanning_several_pages");
+                                }
                             }
                         }
                         1 => {
@@ -772,6 +813,9 @@ impl Check for Registries {
                             ensure!(got == want, "step {step}: paging trios with limit {limit} returned {seen:?}, registered {want:?}");
                             if pages > 1 {
                                 multi_page += 1;
+                                if limit_opt.is_none() {
+                                    rec.class("listing_without_a_limit_spanning_several_pages");
+                                }
                             }
                         }
                         2 => {
@@ -806,6 +850,9 @@ impl Check for Registries {
                             ensure!(got == want, "step {step}: paging vaults with limit {limit} returned {seen:?}, registered {want:?}");
                             if pages > 1 {
                                 multi_page += 1;
+                                if limit_opt.is_none() {
+                                    rec.class("listing_without_a_limit_spanning_several_pages");
+                                }
                             }
                         }
                         _ => {
@@ -840,6 +887,9 @@ impl Check for Registries {
                             ensure!(got == want, "step {step}: paging incentives with limit {limit} returned {seen:?}, registered {want:?}");
                             if pages > 1 {
                                 multi_page += 1;
+                                if limit_opt.is_none() {
+                                    rec.class("listing_without_a_limit_spanning_several_pages");
+                                }
                             }
                         }
                     }
